@@ -61,17 +61,15 @@ def St.isLocal (s : St) (x : String) : Bool :=
 
 /-- name lookup: a local name is looked up in the locals only (unbound: `UnboundLocalError`), any other name in the globals -/
 def St.lookup (s : St) (x : String) : Option Val :=
-  match s.locals with
-  | some l => if !s.declGlobal.contains x && s.localNames.contains x then l.get x else s.globals.get x
-  | none => s.globals.get x
+  if s.isLocal x then s.locals.bind (fun l => l.get x) else s.globals.get x
 
 /-- the exception an unbound name raises -/
 def St.unbound (s : St) (x : String) : String := if s.isLocal x then "UnboundLocalError" else "NameError"
 
+/-- assignment: to the locals if the name is local to the running function, else to the globals (module level, or a
+    name declared `global`) -/
 def St.assign (s : St) (x : String) (v : Val) : St :=
-  match s.locals with
-  | some l => if s.declGlobal.contains x then { s with globals := s.globals.set x v } else { s with locals := some (l.set x v) }
-  | none => { s with globals := s.globals.set x v }
+  if s.isLocal x then { s with locals := s.locals.map (fun l => l.set x v) } else { s with globals := s.globals.set x v }
 
 /-- how evaluating / executing ends -/
 inductive Res (α : Type)
